@@ -15,6 +15,11 @@ CHECKS = {
    technique="TLA+ functional specification (SliceLib.tla); TLC enumerates the complete call table for a bounded universe, the real package executes it, TLC validates every recorded call against the post-conditions (SliceLibTrace.tla)",
    text="Every function of pkg/slice is specified as an operator on TLA+ sequences with an explicit post-condition (including the left-to-right callback order of Map/Iter/Filter/Forall/Forany/TryFind/Fold). TLC checks algebraic laws of the specification, enumerates every call in the domain for all sequences over a small alphabet up to a length bound, and validates each result recorded from the real package (int and string instantiation, three memory shapes of the argument). Exhaustive under the bound.",
    note="Trusted: SliceLib.tla as the meaning of the F#-List style functions; the driver; universe bounded to sequences of length <= 4 (quick) / <= 5 (thorough) over 3-4 element values."),
+ "C14": dict(
+   category="model_checking", design_ref="4.14", engine="FoDict/FoLib",
+   technique="TLA+ finite-map machine (FoDict.tla) and library specification (FoLib.tla); TLC-enumerated call table and TLC-generated dictionary histories executed on the real packages; recorded replies trace-validated by TLC (FoDictTrace.tla, FoLibTrace.tla)",
+   text="pkg/dict is an explicit finite-map machine with several independent dictionaries, model-checked for its map laws; all histories of depth 3 and seeded simulated histories of depth 12 are replayed on the real package and every reply (bags for Keys/Values/KVs) is validated step by step by TLC. pkg/strings, pkg/buf and the frt helpers are specified as operators over character sequences / thunk logs; TLC enumerates every call for all strings up to a length bound and validates the recorded results; the formatting helpers are driven with boundary values of every basic Go kind.",
+   note="Trusted: FoLib.tla/FoDict.tla as the intended meaning (argument order from pkg_all.foi, Go semantics for Split/SplitN); ASCII strings only in the enumerated universe; Sprintf1/2 compared with Go's fmt, SInterP integers with strconv."),
 }
 
 def cmd(pid, tier):
